@@ -66,7 +66,7 @@ Laws ==
                             /\ CoarserIsFloor(NAT) /\ FinerAndBack(NAT)
     /\ c.kind = "addsub" => AddSubInverse(c.t, c.a) /\ TAdd(NAT, c.a) = NAT /\ TAdd(c.t, NAT) = NAT /\ TSub(NAT, c.a) = NAT
     /\ c.kind = "diff"   => DiffAddsBack(c.a, c.b) /\ TDiff(NAT, c.b) = NAT /\ TDiff(c.a, NAT) = NAT
-    /\ c.kind = "group"  => GroupAxioms(c.a, c.b, DScale(c.a, c.k)) /\ ScaleDistributes(c.a, c.b, c.k)
+    /\ c.kind = "group"  => GroupAxioms(c.a, c.b, DScale(c.a, c.k)) /\ ScaleDistributes(c.a, c.b, c.k) /\ DivUndoesScale(c.a, c.k)
                             /\ DAdd(NAT, c.a) = NAT /\ DNeg(NAT) = NAT /\ DScale(NAT, c.k) = NAT
                             \* NaT absorbs EVERY duration, also one with a calendar part
                             /\ TAdd(NAT, c.a) = NAT /\ TSub(NAT, c.a) = NAT
